@@ -33,6 +33,7 @@ import (
 	proto "github.com/kubewharf/kubebrain-client/api/v2rpc"
 
 	"github.com/kubewharf/kubebrain/pkg/backend"
+	"github.com/kubewharf/kubebrain/pkg/backend/coder"
 	"github.com/kubewharf/kubebrain/pkg/metrics"
 	kbprom "github.com/kubewharf/kubebrain/pkg/metrics/prometheus"
 	"github.com/kubewharf/kubebrain/pkg/server/brain"
@@ -357,6 +358,11 @@ func soak(dur time.Duration, seed uint64, scratch string) {
 		})
 	}
 
+	// a second node on the in-process TiKV engine whose key range /registry/pods/ spans several regions:
+	// concurrent List / Count / ListPartition / RangeStream / Compact of the same directory while keys are
+	// updated (every scan asks the engine for the partitions of the range and adjusts their borders)
+	tikvNode(spawn, alive, seed)
+
 	wg.Wait()
 	for _, s := range servers {
 		s.Stop()
@@ -364,6 +370,63 @@ func soak(dur time.Duration, seed uint64, scratch string) {
 	pe, _ := lastProxyErr.Load().(string)
 	fmt.Fprintf(os.Stderr, "SOAK-DONE revision=%d retry_queue=%d proxy_ok=%d proxy_err=%d leader_info_calls=%d last_proxy_err=%q\n", b.GetCurrentRevision(), backend.VerifRetryQueueSize(b), atomic.LoadInt64(&proxyOK), atomic.LoadInt64(&proxyErr), atomic.LoadInt64(&leaderInfoCalls), pe)
 	os.Exit(0)
+}
+
+func tikvNode(spawn func(n int, f func(r *lib.Rand)), alive func() bool, seed uint64) {
+	cd := coder.NewNormalCoder()
+	var splits [][]byte
+	for _, i := range []int{20, 40, 60, 80} {
+		splits = append(splits, cd.EncodeObjectKey([]byte(fmt.Sprintf("/registry/pods/p%03d", i)), 0))
+	}
+	kv, _, err := lib.NewTiKVSplit(splits...)
+	if err != nil {
+		fmt.Fprintln(os.Stderr, "SOAK-NOTE no mock TiKV:", err)
+		return
+	}
+	b := backend.NewBackend(kv, backend.Config{Prefix: "/registry", Identity: "tikv-node", EnableEtcdCompatibility: true}, &lib.NopMetrics{})
+	b.SetCurrentRevision(1000)
+	ctx := context.Background()
+	key := func(i int) []byte { return []byte(fmt.Sprintf("/registry/pods/p%03d", i)) }
+	for i := 0; i < 100; i++ {
+		_, _ = b.Create(ctx, &proto.CreateRequest{Key: key(i), Value: []byte("v")})
+	}
+	start, end := []byte("/registry/pods/"), []byte("/registry/pods0")
+	spawn(1, func(r *lib.Rand) { // a writer
+		for alive() {
+			k := key(r.Intn(100))
+			if g, err := b.Get(ctx, &proto.GetRequest{Key: k}); err == nil && g.Kv != nil {
+				_, _ = b.Update(ctx, &proto.UpdateRequest{Kv: &proto.KeyValue{Key: k, Value: []byte(fmt.Sprint(r.Intn(1000))), Revision: g.Kv.Revision}})
+			}
+		}
+	})
+	spawn(5, func(r *lib.Rand) { // readers of one directory
+		for alive() {
+			switch r.Intn(6) {
+			case 0, 1:
+				_, _ = b.List(ctx, &proto.RangeRequest{Key: start, End: end})
+			case 2:
+				_, _ = b.Count(ctx, &proto.CountRequest{Key: start, End: end})
+			case 3:
+				_, _ = b.GetPartitions(ctx, &proto.ListPartitionRequest{Key: start, End: end})
+			case 4:
+				if ch, err := b.ListByStream(ctx, cd.EncodeObjectKey(start, 0), cd.EncodeObjectKey(end, 0), 0); err == nil {
+					for range ch {
+					}
+				}
+			default:
+				_, _ = b.List(ctx, &proto.RangeRequest{Key: start, End: end, Limit: int64(1 + r.Intn(30))})
+			}
+		}
+	})
+	spawn(1, func(r *lib.Rand) {
+		for alive() {
+			cur := b.GetCurrentRevision()
+			if cur > 1100 {
+				_, _ = b.Compact(ctx, cur-50)
+			}
+			time.Sleep(30 * time.Millisecond)
+		}
+	})
 }
 
 // ---------- parent ----------
@@ -580,7 +643,12 @@ func main() {
 			}
 			reps := parseRaces(out, repoDir())
 			seen := map[string]bool{}
+			libRaces := 0
 			for _, r := range reps {
+				if len(r.Frames[0]) == 0 && len(r.Frames[1]) == 0 {
+					libRaces++ // both accesses entirely inside a library (mock cluster, gRPC, ...): trusted base
+					continue
+				}
 				// the table locations of the innermost repository frames of both accesses
 				locset := map[string]bool{}
 				for sec := 0; sec < 2; sec++ {
@@ -633,6 +701,7 @@ func main() {
 						"replay": fmt.Sprintf("%s -child soak -dur %s -seed %d (built with go build -race -tags verif ./cmd/c19)", bin, soakDur, args.Seed)}})
 			}
 			w.Stats.Extra["race_reports"] = len(reps)
+			w.Stats.Extra["race_reports_inside_libraries_only"] = libRaces
 			w.Stats.Extra["race_locations"] = len(seen)
 		}
 	}
